@@ -245,11 +245,11 @@ impl Length {
 //@end
 //@item src/position.rs :: impl Length :: fn calc_offset
 //@ ensures
-//@ - val(r) == len_offset(*self, val(start), val(end))
+//@ - val(r) == len_offset(*self, val(start), val(end))     @@C09.offset.spec @@C13.offset.spec
 //@ - self is Absolute && val(self->Absolute_0) >= 0real && val(start) <= val(end) ==> val(r) == val(start) + val(self->Absolute_0)     @@C09.offset.from_start
 //@ - self is Absolute && val(self->Absolute_0) < 0real && val(start) <= val(end) ==> val(r) == val(end) + val(self->Absolute_0)     @@C09.offset.from_end
-//@ - self is Absolute && val(self->Absolute_0) >= 0real && val(start) > val(end) ==> val(r) == val(start) - val(self->Absolute_0)     @@C09.offset.reversed_start
-//@ - self is Absolute && val(self->Absolute_0) < 0real && val(start) > val(end) ==> val(r) == val(end) - val(self->Absolute_0)     @@C09.offset.reversed_end
+//@ - self is Absolute && val(self->Absolute_0) >= 0real && val(start) > val(end) ==> val(r) == val(start) - val(self->Absolute_0)     @@C09.offset.reversed_start @@C13.offset.reversed_start
+//@ - self is Absolute && val(self->Absolute_0) < 0real && val(start) > val(end) ==> val(r) == val(end) - val(self->Absolute_0)     @@C09.offset.reversed_end @@C13.offset.reversed_end
 //@ - self is Ratio ==> val(r) == val(start) + (val(end) - val(start)) * val(self->Ratio_0)     @@C09.offset.ratio
 //@end
 }
